@@ -19,15 +19,21 @@ NameRows == { << "option", r[2], r[1] >> : r \in OptionRows }
 \* back as reserved and, taken as a response code, is an error like every byte from 128 up
 CatchAllRows == { << "method", 255 >>, << "response", 255 >> }
 
+\* the conversions take a usize: numbers beyond the 16-bit registries (a registered number plus 2^shift)
+\* are unassigned whatever their low bits say
+BigShifts == { 16, 17, 24, 31, 32, 40, 63 }
+BigBases == { r[1] : r \in ObserveRows } \cup { r[1] : r \in ContentFormatRows } \cup { 2, 65535 }
+
 VARIABLE row
 Init == \/ \E n \in 0 .. 65535 : row = [kind |-> "number", n |-> n]
         \/ \E r \in NameRows : row = [kind |-> "name", space |-> r[1], name |-> r[2], n |-> r[3], err |-> IsErrorCode(r[3])]
+        \/ \E b \in BigBases, sh \in BigShifts : row = [kind |-> "big", n |-> 0, base |-> b, shift |-> sh, cf |-> "-", obs |-> "-"]
         \/ \E r \in CatchAllRows : row = [kind |-> "catchall", space |-> r[1], n |-> r[2], err |-> IsErrorCode(r[2]),
                                            back |-> CodeKind(r[2])]
 Next == UNCHANGED row
 Spec == Init /\ [][Next]_row
 
-Row == IF row.kind \in { "name", "catchall" } THEN row
+Row == IF row.kind \in { "name", "catchall", "big" } THEN row
        ELSE LET n == row.n IN
             IF n <= 255
             THEN [kind |-> "number", n |-> n, opt |-> NameOf(OptionRows, n), cf |-> NameOf(ContentFormatRows, n),
